@@ -137,7 +137,7 @@ func (b *byzState) items(id int) []byzItem {
 				bh := blockHash(h, prev, r.ts, r.nonce, r.txs)
 				add(mk(dbft.CommitType, &commitBody{mkSig('B', id, bh)}), "commit for "+propName(q, id))
 				if amev {
-					add(mk(dbft.PreCommitType, &preCommitBody{mkSig('P', id, bh^0x5050505050505050)}), "precommit for "+propName(q, id))
+					add(mk(dbft.PreCommitType, &preCommitBody{mkSig('P', id, preDataHash(h, prev, r.ts, r.nonce, r.txs))}), "precommit for "+propName(q, id))
 				}
 			}
 			add(mk(dbft.PrepareResponseType, &prepResp{H(0xbad0 + uint64(v))}), "response for unknown hash")
